@@ -159,3 +159,13 @@ Definition fmt_SessionTicketPayload := FTag 2 (fun ver =>
 
 (* names used by the harness *)
 Definition fmt_Ext (c : ectx) := Ext c.
+
+(* ---- example value used by Props/C15.v ------------------------------------------------ *)
+(* a ClientHello with session id, two suites, SNI + supported_groups + an unknown extension *)
+Definition ex_client_hello : val :=
+  VPair (VInt 1) (VPair (VInt 3) (VPair (VInt 3) (VPair (VBytes (repeat 7 32)) (VPair (VBytes [1;2;3])
+   (VPair (vlist [VInt 4865; VInt 49199]) (VPair (vlist [VInt 0])
+   (VSome (vlist [
+      VTag 0 (VSome (vlist [VPair (VInt 0) (VBytes [97;46;98])]));
+      VTag 10 (VSome (vlist [VInt 29; VInt 23]));
+      VTag 4660 (VBytes [1;2;3;4;5])])))))))).
